@@ -712,3 +712,26 @@ pub fn hd() -> OptionParser<(bool, bool, Option<u32>, Option<u32>)> {
     let x = positional::<u32>("X").optional();
     construct!(a, s, b, x).to_options()
 }
+
+/// user-controlled texts of the documentation jobs: `VERIF_TEXT<i>` in the environment, "a" otherwise
+/// (the symbolic executor replaces this function by symbolic bytes)
+pub fn user_text(i: usize) -> &'static str {
+    match std::env::var(format!("VERIF_TEXT{}", i)) {
+        Ok(s) => Box::leak(s.into_boxed_str()),
+        Err(_) => "a",
+    }
+}
+
+/// every free text a definition can carry comes from `user_text`: item help, group help, descr, header, footer
+pub fn ut() -> OptionParser<(bool, u32)> {
+    let a = short('a').long("alpha").help(user_text(0)).switch();
+    let b = short('b').long("beta").help("beta").argument::<u32>("B");
+    construct!(a, b).group_help(user_text(1)).to_options().descr(user_text(2)).header(user_text(3)).footer(user_text(4))
+}
+
+/// two required arguments, fallback_to_usage: the usage text answers the *empty* line only
+pub fn fu() -> OptionParser<(u32, u32)> {
+    let a = short('a').long("alpha").argument::<u32>("A");
+    let b = short('b').long("beta").argument::<u32>("B");
+    construct!(a, b).to_options().fallback_to_usage()
+}
